@@ -252,8 +252,10 @@ class Coll(Val):
         return out
 
     def rust(self):
-        items = ', '.join('(%s, %s)' % (rs_str(n), set_or_single(vals)) for n, vals in self.members)
-        return 'IppValue::Collection(cmap(vec![%s]))' % items
+        # direct inserts: nested values must not travel through a heap buffer of tuples on their way
+        # into the map (pointers loaded back from byte buffers are opaque to constant propagation)
+        ins = ' '.join('m.insert(%s, %s);' % (rs_str(n), set_or_single(vals)) for n, vals in self.members)
+        return '{ let mut m = CMap::new(); %s IppValue::Collection(m) }' % ins
 
     def check(self, v):
         inner = ['assert!(m.len() == %d, "number of collection members");' % len(self.members)]
@@ -355,6 +357,24 @@ class Shape:
             items = ', '.join('("%s", %s)' % (a.name, set_or_single(a.vals)) for a in attrs)
             gs.append('(0x%02x, vec![%s])' % (tag, items))
         return 'vec![%s]' % ', '.join(gs)
+
+    def build_rust(self):
+        """in-memory message through the public API: `add` where it can express the shape,
+        `groups_mut().push` for empty and repeated groups (which `add` cannot create)"""
+        L = ['let mut attrs = IppAttributes::new();']
+        seen = set()
+        for tag, attrs in self.enc_groups():
+            if not attrs or tag in seen:
+                L.append('{ let mut g = IppAttributeGroup::new(%s);' % GROUP_RUST[tag])
+                for a in attrs:
+                    L.append('g.attributes_mut().insert("%s".to_string(), IppAttribute::new("%s", %s));' % (a.name, a.name, set_or_single(a.vals)))
+                L.append('attrs.groups_mut().push(g); }')
+            else:
+                for a in attrs:
+                    L.append('attrs.add(%s, IppAttribute::new("%s", %s));' % (GROUP_RUST[tag], a.name, set_or_single(a.vals)))
+            seen.add(tag)
+        L.append('attrs')
+        return '\n        '.join(L)
 
     def check_rust(self, enc=False):
         gs = self.enc_groups() if enc else self.groups
@@ -494,11 +514,8 @@ def rust_shape(s):
         lines.append('            vec![%s],' % ', '.join(bexpr(b) for b in w))
     lines.append('        ]')
     lines.append('    }')
-    lines.append('    fn expect(x: &[u8; XN]) -> Tree {')
-    lines.append('        %s' % s.expect_rust())
-    lines.append('    }')
-    lines.append('    fn expect_enc(x: &[u8; XN]) -> Tree {')
-    lines.append('        %s' % s.expect_rust(enc=True))
+    lines.append('    fn build(x: &[u8; XN]) -> IppAttributes {')
+    lines.append('        %s' % (s.build_rust() if 'RAW' not in s.tags else 'IppAttributes::new()'))
     lines.append('    }')
     lines.append('    fn check(attrs: &IppAttributes, x: &[u8; XN]) {')
     lines.append('        %s' % s.check_rust())
